@@ -139,6 +139,28 @@ PROPS = {
                             "thorough": "all 19 356 depth-2 sequences x 2 pools + 6000 simulated depth-14 sequences x 3 pools"},
         "assumptions": TRUST + ["the digest function snap() of harness/drivers/c16.py observes every stored field"],
     },
+    "C18": {
+        "technique": "TLA+ spec (Ops.tla LocalZoneFn/EffectiveOffsetSec, Text.tla zone spellings, epoch on the timeline) + TLC trace validation; exhaustive enumeration of whole-minute zone configurations",
+        "level_text": "Every whole-minute standard offset in +-24 h x daylight-offset variants x daylight flag x is-dst (-1/0/1) is installed "
+                      "as the system zone configuration (the time module seen by timezone.py is replaced, as the repository's own fixture does) "
+                      "and TLC checks the (hours, minutes) pair and the three text forms; Unix-time conversions in both directions are judged on "
+                      "the integer timeline (day/second pairs, so counts beyond 2^31 are exact).",
+        "drivers": ["c18"], "mc": [{"module": "MC_C18.tla", "cfg": "MC_C18.cfg"}], "expect_ops": ["LocalZone", "FromEpoch", "SinceEpoch"],
+        "rule": "one case = one zone configuration, or one epoch conversion; non-trivial zone = non-whole-hour, west of UTC or in daylight time",
+        "exhaustive": {"quick": False, "thorough": False},
+        "exhaustive_part": {"quick": "all 2881 whole-minute standard offsets x 2 daylight deltas x 5 flag combinations",
+                            "thorough": "all 2881 offsets x 7 daylight deltas x 5 flag combinations"},
+        "assumptions": TRUST,
+    },
+    "C20": {
+        "technique": "TLA+ spec (Ops.tla AddTruncClause: match + leastness on the timeline) + TLC trace validation of truncated additions under a watchdog",
+        "level_text": "For every recorded t + p (either order) TLC checks the result matches t's fields read in the right offset, is not earlier "
+                      "than p, is the EARLIEST such date-time (no matching day in between, least matching time of day), carries p's offset, is "
+                      "valid, and that applying t again changes nothing; every call runs under a 5 s watchdog.",
+        "drivers": ["c20"], "mc": [], "expect_ops": ["TruncAdd"],
+        "rule": "one case = one truncated addition; shapes h/hm/hms/m/ms/s/none x day designators incl. day 29-31, 366, week 53; all non-trivial",
+        "assumptions": TRUST,
+    },
     "C03": {
         "technique": "TLA+ calendar definition (Cal.tla) model-checked with TLC (+ Apalache lemmas) and TLC trace validation of every conversion row of the real helpers",
         "level_text": "Cal.tla is the proleptic definition; TLC checks it is self-consistent (inverse pairs, week rule, lengths) on every day "
